@@ -84,6 +84,44 @@ func (vc *VC) execCall(x *ssa.Call, c *ssa.CallCommon, st *State, holder ssa.Val
 			vc.fail("no contract for interface method %s", key)
 		}
 		r := mkArg(c.Value)
+		if spec.AliasOf != "" {
+			// devirtualised: the dynamic type is shown to be the one concrete implementation
+			tf := vc.w.findFunc(spec.AliasPkg, spec.AliasOf)
+			if tf == nil {
+				vc.fail("contract: iface alias: no method %s in %s", spec.AliasOf, spec.AliasPkg)
+			}
+			tspec := vc.w.specFor(tf)
+			if tspec == nil {
+				vc.fail("no contract for method %s", funcKey(tf))
+			}
+			ct := tf.Signature.Recv().Type()
+			srt := vc.d.sortOf(ct)
+			bn := vc.boxName(ct)
+			vc.d.declFun(bn, fmt.Sprintf("(declare-fun %s (%s) Int)", bn, srt))
+			vc.d.declFun("un"+bn, fmt.Sprintf("(declare-fun un%s (Int) %s)", bn, srt))
+			vc.safety("dyntype", fmt.Sprintf("(and (> %s 0) (= (typeof %s) %d))", r.t, r.t, vc.d.typeTag(ct)), "the dynamic type of the "+named.Obj().Name()+" value is "+ct.String()+" ("+calleeName+")")
+			cr := SVal{t: vc.define("devirt", srt, fmt.Sprintf("(un%s %s)", bn, r.t)), typ: ct, sort: srt}
+			recv = &cr
+			rn := tf.Signature.Recv().Name()
+			if rn == "" || rn == "_" {
+				rn = "self"
+			}
+			binds[rn] = cr
+			binds["self"] = cr
+			for i, a := range c.Args {
+				av := mkArg(a)
+				argVals = append(argVals, av)
+				binds[paramName(tspec, tf.Signature, i)] = av
+			}
+			spec = tspec
+			sig = tf.Signature
+			calleeName = tf.RelString(nil)
+			if i := strings.LastIndex(calleeName, "/"); i >= 0 {
+				calleeName = calleeName[i+1:]
+			}
+			pureKey = funcKey(tf)
+			break
+		}
 		recv = &r
 		binds["self"] = r
 		pureKey = key
